@@ -20,159 +20,286 @@ def run(ctx):
     ctx.rule('C14-R4', 'Poll: add and remove locate the slot with lower_bound and the same comparator; an element is inserted only after the lookup showed the descriptor absent; remove erases exactly the found slot; empty() iff no descriptors', 7)
     ctx.rule('C14-R5', 'scoped_fd: not copyable (must-not-compile witness); close() resets fd on the path that closes; destructor/open/assignments close first; move resets the source; no other ::close of the member', 9)
     ctx.rule('C14-R6', 'path helpers: dirname/basename split at the same rfind(\'/\'); directory listings drop exactly . and .. and close the handle; recursive unlink visits every entry before rmdir', 7)
+    ctx.rule('C14-R7', 'read-to-end helpers by evaluation (E-IO): fgets for every line length 0..1100 (the property\'s domain), read_all(fd) for sizes around the 256-byte and 16 KiB block boundaries under short-read plans, read_all(FILE*): the result is exactly what the source delivers and the stream is left after the line', 3)
     u = ctx.unit(repo_unit('Filesystem.cc'))
 
-    # ---------------- R1
-    R = 'C14-R1'
-    ras = u.func('phosg::read_all')
-    ctx.require(len(ras) == 2, 'read_all overloads not found')
-    for f in ras:
-        is_fd = dtype(params_of(f)[0]) == 'int'
-        lab = 'read_all(%s)' % ('int fd' if is_fd else 'FILE*')
-        ctx.fn(lab)
-        check_no_goto(f)
-        body = body_of(f)
-        loops = [x for x in walk(body) if x.get('kind') == 'ForStmt' and for_parts(x)[2] is None]
-        ctx.require(len(loops) == 1, '%s: read loop not found' % lab)
-        lp = loops[0]
-        lb = loop_body(lp)
-        rd = calls_named(lb, ('read', 'fread'))
-        ctx.require(len(rd) == 1, '%s: raw read call not found' % lab)
-        nv = enclosing(rd[0], ('VarDecl',))
-        ctx.require(nv is not None, '%s: read result is not stored' % lab)
-        nname = nv['name']
-        breaks = [b for b in walk(lb) if b.get('kind') == 'BreakStmt' and enclosing(b, LOOPS) is lp]
-        rets = [r for r in walk(lb) if r.get('kind') == 'ReturnStmt']
-        ctx.check(bool(breaks) and not rets, R, lab + '|exits', lp, '%d break exit(s)' % len(breaks), 'the read loop has no break or returns from inside')
-        for i, b in enumerate(breaks):
-            rels = [(nf(r[0]), r[1], nf(r[2])) for r in [relation(n_, p_) for n_, p_ in atoms(path_facts(b))] if r]
-            zero = any((a == nname and op in ('==', '<=') and c == '0') or (c == nname and op in ('==', '>=') and a == '0') for a, op, c in rels)
-            short = any(a == nname and op == '<' and c != '0' for a, op, c in rels)
-            if is_fd:
-                ctx.check(zero and not (short and not zero), R, '%s|exit#%d-on-eof-only' % (lab, i), b, 'loop exits on a zero-byte read',
-                          'the descriptor loop exits under %s: a short read from a pipe or socket is not end of file, the rest of the stream is silently dropped' % (rels or 'no condition on the byte count'))
-            else:
-                ctx.check(zero or short, R, '%s|exit#%d-on-short-fread' % (lab, i), b, 'loop exits when fread returns less than requested (EOF or error by definition)', 'stream loop exit condition is %s' % rels)
-        # accounting: every end of a turn / exit has the last block trimmed (or full)
-        push = [c for c in walk(lb) if c.get('kind') == 'CXXMemberCallExpr' and call_name(c) == 'emplace_back' and canon(member_call_object(c)) == 'buffers']
-        ctx.require(len(push) == 1, '%s: block push not found' % lab)
-        cap = nf(call_args(push[0])[0])
-        ends = [x for x in walk(lb) if x.get('kind') in ('ContinueStmt', 'BreakStmt') and enclosing(x, LOOPS) is lp]
-        dummy = None
-        if falls_through(lb):
-            dummy = {'kind': 'NullStmt', '_p': lb}
-            lb.setdefault('inner', []).append(dummy)
-            ends.append(dummy)
-        try:
-            for i, e in enumerate(ends):
-                pre = preceding_statements(e)
-                trimmed = any(strip(s).get('kind') == 'CXXMemberCallExpr' and call_name(strip(s)) == 'resize' and canon(member_call_object(strip(s))) == 'buffers.back()' and canon(call_args(strip(s))[0]) == nname for s in pre)
-                trimmed = trimmed or any(strip(s).get('kind') == 'CXXMemberCallExpr' and call_name(strip(s)) == 'pop_back' and canon(member_call_object(strip(s))) == 'buffers' for s in pre)
-                rels = [(nf(r[0]), r[1], nf(r[2])) for r in [relation(n_, p_) for n_, p_ in atoms(path_facts(e))] if r]
-                full = any((a == nname and op in ('>=', '==') and c == cap) or (c == nname and op in ('<=', '==') and a == cap) for a, op, c in rels)
-                kindn = {'ContinueStmt': 'continue', 'BreakStmt': 'break', 'NullStmt': 'end-of-turn'}[e['kind']]
-                ctx.check(trimmed or full, R, '%s|%s#%d-block-trimmed' % (lab, kindn, i), e if e is not dummy else lb, 'the block pushed this turn is trimmed to the bytes read (or is full)',
-                          'a turn ends (%s) with the freshly pushed %s-byte block neither trimmed to the byte count nor known to be full: the result is padded with NUL bytes' % (kindn, cap))
-        finally:
-            if dummy is not None:
-                lb['inner'].pop()
-        errs = [x for x in walk(lb) if x.get('kind') == 'IfStmt' and nf(if_parts(x)[0]) == '(%s < 0)' % nname and not falls_through(if_parts(x)[1]) and any(t.get('kind') == 'CXXThrowExpr' for t in walk(if_parts(x)[1]))]
-        ctx.check(len(errs) == 1, R, lab + '|error-throws', lp, 'a negative count throws', 'a failed read does not throw (it must not be retried past a block that was not trimmed, nor ignored)')
+    # ---------------- R7: the read-to-end helpers evaluated against a modelled source (E-IO): the
+    # descriptor / stream is a constant byte string delivered in planned chunks; libc read / fread /
+    # fgets / feof follow their specification.  Line lengths 0..1100 are the property's own domain.
+    R = 'C14-R7'
+    from peval import PEval, Stream, Str as PStr, Undecided as PUnd, Fault as PFault, Thrown as PThrown
+    us_ = repo_unit('Strings.cc')
+    PE = PEval([u, us_], max_depth=8, max_iter=200000)
+    r7 = {}
 
-    # ---------------- R2
-    R = 'C14-R2'
-    fg = [f for f in u.func('phosg::fgets') if len(params_of(f)) == 1][0]
-    ctx.fn('fgets(FILE*)')
-    check_no_goto(fg)
-    body = body_of(fg)
-    lp = next(x for x in walk(body) if x.get('kind') == 'ForStmt')
-    lb = loop_body(lp)
-    blk = next((v for v in walk(lb) if v.get('kind') == 'VarDecl' and v.get('name') == 'block'), None)
-    ctx.require(blk is not None, 'fgets: block variable not found')
-    eb = [c for c in walk(blk) if c.get('kind') == 'CXXMemberCallExpr' and call_name(c) == 'emplace_back']
-    B = int_value(call_args(eb[0])[0]) if eb else None
-    ctx.require(B is not None, 'fgets: block capacity not found')
-    raw = calls_named(lb, ('fgets',))
-    raw = [c for c in raw if len(call_args(c)) == 3]
-    ctx.require(len(raw) == 1, 'fgets: ::fgets call not found')
-    a1 = nf(call_args(raw[0])[1])
-    ctx.check(a1 in ('block.size()', str(B)), R, 'fgets|capacity-passed', raw[0], '::fgets is given the block capacity %d' % B, '::fgets is given %s, the block holds %d bytes' % (a1, B))
-    resz = [c for c in walk(lb) if c.get('kind') == 'CXXMemberCallExpr' and call_name(c) == 'resize' and canon(member_call_object(c)) == 'block']
-    lenv = next((v for v in walk(lb) if v.get('kind') == 'VarDecl' and kids(v) and 'strlen' in canon(kids(v)[-1])), None)
-    brk = [b for b in walk(lb) if b.get('kind') == 'BreakStmt' and enclosing(b, ('IfStmt',)) is not None and 'feof' not in nf(if_parts(enclosing(b, ('IfStmt',)))[0])]
-    ok = lenv is not None and len(brk) == 1
-    why = 'line-end test not found'
-    if ok:
-        ifs = enclosing(brk[0], ('IfStmt',))
-        cond = if_parts(ifs)[0]
-        eval_at = ifs
-        rdc = ref_decl(cond)
-        if rdc and rdc.get('kind') == 'VarDecl':
-            # the test is held in a named bool: judge it where it is computed
-            vdc = next((v for v in walk(lb) if v.get('kind') == 'VarDecl' and v.get('id') == rdc['id'] and kids(v)), None)
-            if vdc is not None:
-                cond = kids(vdc)[-1]
-                eval_at = vdc
-        after_resize = bool(resz) and resz[0].get('_off', 0) < eval_at.get('_off', 0) and canon(call_args(resz[0])[0]) == lenv['name']
-
-        def size_now():
-            return lenv['name'] if after_resize else str(B)
-
-        def sym(n):
-            """value of an index/length expression as ('const', k) or ('len', k) meaning len + k"""
-            s = nf(n)
-            s = s.replace('block.size()', size_now())
-            m = re.match(r'^\((\w+) - (\d+)\)$', s)
-            if s.isdigit():
-                return ('const', int(s))
-            if s == lenv['name']:
-                return ('len', 0)
-            if m and m.group(1).isdigit():
-                return ('const', int(m.group(1)) - int(m.group(2)))
-            if m and m.group(1) == lenv['name']:
-                return ('len', -int(m.group(2)))
-            return None
-        c0 = strip(cond)
-        dis = []
-        st = [c0]
-        while st:
-            x = strip(st.pop())
-            if x.get('kind') == 'BinaryOperator' and x.get('opcode') == '||':
-                st.extend(x['inner'])
-            else:
-                dis.append(x)
-        short_ok = False
-        nl_ok = False
-        detail = []
-        for d in dis:
-            r = relation(d, True)
-            if not r:
+    def judge(key, f_, cases, node):
+        ok_, bad_, und_ = 0, None, None
+        for label, mk, want in cases:
+            st = mk()
+            try:
+                got = PE.call_with(f_, [st])
+            except PThrown as e_:
+                if st.fail_at is not None:
+                    ok_ += 1       # a failed read may always be reported (also EINTR: retrying is optional)
+                else:
+                    bad_ = bad_ or (label, 'throws (%s) although the source delivers its bytes without error' % e_)
                 continue
-            if nf(r[0]) == lenv['name'] and r[1] in ('<', '<=', '!='):
-                k = sym(r[2])
-                bound = None
-                if k and k[0] == 'const':
-                    bound = k[1] if r[1] in ('<', '!=') else k[1] + 1
-                short_ok = bound == B - 1
-                detail.append('short-block test: %s %s %s (means fewer than %s characters; a full block holds %d)' % (lenv['name'], r[1], nf(r[2]), bound, B - 1))
-            elif r[1] == '==' and int_value(r[2]) == 10:
-                ch = strip(r[0])
-                idx = None
-                if ch.get('kind') == 'CXXOperatorCallExpr' and call_name(ch) == 'operator[]':
-                    idx = sym(ch['inner'][2])
-                elif ch.get('kind') == 'CXXMemberCallExpr' and call_name(ch) == 'back':
-                    idx = ('len', -1) if after_resize else ('const', B - 1)
-                # under the negation of the short test the block is full: len == B-1
-                if idx and idx[0] == 'len':
-                    idx = ('const', B - 1 + idx[1])
-                nl_ok = idx == ('const', B - 2)
-                detail.append('newline test reads index %s (the last character of a full block is at %d; index %d is the terminator)' % (idx[1] if idx else '?', B - 2, B - 1))
-        ok = short_ok and nl_ok
-        why = '; '.join(detail) or 'line-end test not recognised: %s' % nf(cond)
-    ctx.check(ok, R, 'fgets|line-end-test', brk[0] if brk else fg, 'line ends iff fewer than B-1 characters arrived or the character at B-2 is a newline',
-              'the end-of-line test is wrong for lines that fill a block: %s: the next line is glued on (or a long line is cut)' % why)
-    eofb = [x for x in walk(lb) if x.get('kind') == 'IfStmt' and 'feof' in nf(if_parts(x)[0])]
-    ctx.check(len(eofb) == 1 and any(t.get('kind') == 'CXXThrowExpr' for t in walk(eofb[0])) and any(b.get('kind') == 'BreakStmt' for b in walk(if_parts(eofb[0])[1])), R, 'fgets|eof-vs-error', eofb[0] if eofb else fg, 'null from ::fgets: end of file ends the line, anything else throws', 'the null-result branch no longer distinguishes end of file from an error')
+            except PFault as e_:
+                bad_ = bad_ or (label, 'evaluation faults: %s' % e_)
+                continue
+            except PUnd as e_:
+                und_ = str(e_)
+                break
+            gb = bytes(got.b) if isinstance(got, PStr) else None
+            if st.fail_at is not None and st.ncalls > st.fail_at and not getattr(st, 'transient', False):
+                bad_ = bad_ or (label, 'returns %d byte(s) as if nothing had happened; a failed read must throw' % len(gb or b''))
+                continue
+            w_ = want(st)
+            if gb != w_[0]:
+                bad_ = bad_ or (label, 'returns %d byte(s) %r...; the source delivers %d byte(s) %r...' % (len(gb or b''), (gb or b'')[-12:], len(w_[0]), w_[0][-12:]))
+            elif w_[1] is not None and st.pos != w_[1]:
+                bad_ = bad_ or (label, 'leaves the stream at offset %d; the line ends at %d' % (st.pos, w_[1]))
+            else:
+                ok_ += 1
+        r7[key] = und_ is None and bad_ is None
+        if und_:
+            ctx.undecided(R, key, node, 'could not be evaluated (%s)' % und_)
+        elif bad_:
+            ctx.bad(R, key, node, '%s: for %s it %s' % (key, bad_[0], bad_[1]))
+        else:
+            ctx.ok(R, key, node, '%d cases: returns exactly the bytes the source delivers' % ok_)
+    fg_ = [f for f in u.func('phosg::fgets') if len(params_of(f)) == 1 and body_of(f) is not None]
+    if fg_:
+        cases = []
+        for L in range(0, 1101):
+            line = bytes((65 + (i_ % 23)) for i_ in range(L))
+            cases.append(('a line of %d characters followed by another line' % L, (lambda d=line + b'\n' + b'next line\n': Stream(d)), (lambda st, d=line + b'\n': (d, len(d)))))
+            if L % 51 == 0 or L in (254, 255, 256, 509, 510, 511, 764, 765, 766):
+                cases.append(('a final line of %d characters without a newline' % L, (lambda d=line: Stream(d)), (lambda st, d=line: (d, len(d)))))
+        cases.append(('an empty stream', (lambda: Stream(b'')), (lambda st: (b'', 0))))
+
+        def failing(d, k):
+            st_ = Stream(d)
+            st_.fail_at = k
+            return st_
+        for k_ in (0, 1, 2):
+            cases.append(('a 700-character line whose ::fgets call #%d fails' % k_, (lambda k_=k_: failing(b'x' * 700 + b'\n', k_)), (lambda st: (b'x' * 700 + b'\n', 701))))
+        judge('fgets(FILE*)', fg_[0], cases, fg_[0])
+    for f in u.func('phosg::read_all'):
+        if body_of(f) is None:
+            continue
+        is_fd = dtype(params_of(f)[0]) == 'int'
+        sizes = [0, 1, 255, 256, 257, 16383, 16384, 16385, 32767, 32768, 32769, 40000] + ([200 * 1024] if ctx.tier == 'thorough' else [])
+        plans = [None, [1], [1, 2, 3], [255], [16383], [16384], [7000, 1, 16384], [100000]] if is_fd else [None]
+        cases = []
+        for n_ in sizes:
+            data = bytes((i_ * 7 + (i_ >> 8)) & 0xFF for i_ in range(n_))
+            for pl in plans:
+                if pl and max(pl) <= 3 and n_ > 600:
+                    continue
+                cases.append(('%d byte(s) delivered %s' % (n_, 'in reads of at most %s' % pl if pl else 'as fast as asked'), (lambda d=data, pl=pl: Stream(d, pl)), (lambda st, d=data: (d, None))))
+        if is_fd:
+            def failing_fd(d, k):
+                st_ = Stream(d, [5000])
+                st_.fail_at = k
+                return st_
+            for k_ in (0, 1, 3):
+                cases.append(('20000 bytes whose read() call #%d fails' % k_, (lambda k_=k_: failing_fd(bytes(20000), k_)), (lambda st: (bytes(20000), None))))
+
+            def eintr_fd(d, k):
+                st_ = Stream(d, [5000])
+                st_.fail_at = k
+                st_.fail_errno = 4
+                st_.transient = True
+                return st_
+            for k_ in (0, 2):
+                cases.append(('20000 bytes whose read() call #%d is interrupted (EINTR) once' % k_, (lambda k_=k_: eintr_fd(bytes(range(200)) * 100, k_)), (lambda st: (bytes(range(200)) * 100, None))))
+        judge('read_all(%s)' % ('int fd' if is_fd else 'FILE*'), f, cases, f)
+
+    class _Shape(Exception):
+        pass
+
+    def need(cond, msg):
+        if not cond:
+            raise _Shape(msg)
+
+    def structural(fn, rule, keys):
+        decided = all(r7.get(k_) for k_ in keys)
+        real_bad = ctx.bad
+        if decided:
+            # the evaluation has vouched for the behaviour on the property's domain: a mismatch with the
+            # structural pattern is a different way of writing it, reported as undecided
+            ctx.bad = lambda rule_, key_, node_, detail_='': ctx.undecided(rule_, key_, node_, 'differs from the structural pattern (%s); behaviour decided by evaluation (C14-R7)' % detail_[:160])
+        try:
+            fn()
+        except (_Shape, StopIteration) as e_:
+            if all(r7.get(k_) for k_ in keys):
+                ctx.undecided(rule, '|'.join(keys) + '|structure', u.path, 'not written in the shape the structural rule reads (%s): the behaviour is decided by evaluation (C14-R7)' % (e_ or 'anchor statement missing'))
+                ctx.rules[rule] = (ctx.rules[rule][0], 0)
+            else:
+                raise AnalysisBroken(str(e_) or 'anchor statement missing')
+        finally:
+            ctx.bad = real_bad
+
+    def r1_structure():
+        # ---------------- R1
+        R = 'C14-R1'
+        ras = u.func('phosg::read_all')
+        need(len(ras) == 2, 'read_all overloads not found')
+        for f in ras:
+            is_fd = dtype(params_of(f)[0]) == 'int'
+            lab = 'read_all(%s)' % ('int fd' if is_fd else 'FILE*')
+            ctx.fn(lab)
+            check_no_goto(f)
+            body = body_of(f)
+            loops = [x for x in walk(body) if x.get('kind') == 'ForStmt' and for_parts(x)[2] is None]
+            need(len(loops) == 1, '%s: read loop not found' % lab)
+            lp = loops[0]
+            lb = loop_body(lp)
+            rd = calls_named(lb, ('read', 'fread'))
+            need(len(rd) == 1, '%s: raw read call not found' % lab)
+            nv = enclosing(rd[0], ('VarDecl',))
+            need(nv is not None, '%s: read result is not stored' % lab)
+            nname = nv['name']
+            breaks = [b for b in walk(lb) if b.get('kind') == 'BreakStmt' and enclosing(b, LOOPS) is lp]
+            rets = [r for r in walk(lb) if r.get('kind') == 'ReturnStmt']
+            ctx.check(bool(breaks) and not rets, R, lab + '|exits', lp, '%d break exit(s)' % len(breaks), 'the read loop has no break or returns from inside')
+            for i, b in enumerate(breaks):
+                rels = [(nf(r[0]), r[1], nf(r[2])) for r in [relation(n_, p_) for n_, p_ in atoms(path_facts(b))] if r]
+                zero = any((a == nname and op in ('==', '<=') and c == '0') or (c == nname and op in ('==', '>=') and a == '0') for a, op, c in rels)
+                short = any(a == nname and op == '<' and c != '0' for a, op, c in rels)
+                if is_fd:
+                    ctx.check(zero and not (short and not zero), R, '%s|exit#%d-on-eof-only' % (lab, i), b, 'loop exits on a zero-byte read',
+                              'the descriptor loop exits under %s: a short read from a pipe or socket is not end of file, the rest of the stream is silently dropped' % (rels or 'no condition on the byte count'))
+                else:
+                    ctx.check(zero or short, R, '%s|exit#%d-on-short-fread' % (lab, i), b, 'loop exits when fread returns less than requested (EOF or error by definition)', 'stream loop exit condition is %s' % rels)
+            # accounting: every end of a turn / exit has the last block trimmed (or full)
+            push = [c for c in walk(lb) if c.get('kind') == 'CXXMemberCallExpr' and call_name(c) == 'emplace_back' and canon(member_call_object(c)) == 'buffers']
+            need(len(push) == 1, '%s: block push not found' % lab)
+            cap = nf(call_args(push[0])[0])
+            ends = [x for x in walk(lb) if x.get('kind') in ('ContinueStmt', 'BreakStmt') and enclosing(x, LOOPS) is lp]
+            dummy = None
+            if falls_through(lb):
+                dummy = {'kind': 'NullStmt', '_p': lb}
+                lb.setdefault('inner', []).append(dummy)
+                ends.append(dummy)
+            try:
+                for i, e in enumerate(ends):
+                    pre = preceding_statements(e)
+                    trimmed = any(strip(s).get('kind') == 'CXXMemberCallExpr' and call_name(strip(s)) == 'resize' and canon(member_call_object(strip(s))) == 'buffers.back()' and canon(call_args(strip(s))[0]) == nname for s in pre)
+                    trimmed = trimmed or any(strip(s).get('kind') == 'CXXMemberCallExpr' and call_name(strip(s)) == 'pop_back' and canon(member_call_object(strip(s))) == 'buffers' for s in pre)
+                    rels = [(nf(r[0]), r[1], nf(r[2])) for r in [relation(n_, p_) for n_, p_ in atoms(path_facts(e))] if r]
+                    full = any((a == nname and op in ('>=', '==') and c == cap) or (c == nname and op in ('<=', '==') and a == cap) for a, op, c in rels)
+                    kindn = {'ContinueStmt': 'continue', 'BreakStmt': 'break', 'NullStmt': 'end-of-turn'}[e['kind']]
+                    ctx.check(trimmed or full, R, '%s|%s#%d-block-trimmed' % (lab, kindn, i), e if e is not dummy else lb, 'the block pushed this turn is trimmed to the bytes read (or is full)',
+                              'a turn ends (%s) with the freshly pushed %s-byte block neither trimmed to the byte count nor known to be full: the result is padded with NUL bytes' % (kindn, cap))
+            finally:
+                if dummy is not None:
+                    lb['inner'].pop()
+            errs = [x for x in walk(lb) if x.get('kind') == 'IfStmt' and nf(if_parts(x)[0]) == '(%s < 0)' % nname and not falls_through(if_parts(x)[1]) and any(t.get('kind') == 'CXXThrowExpr' for t in walk(if_parts(x)[1]))]
+            ctx.check(len(errs) == 1, R, lab + '|error-throws', lp, 'a negative count throws', 'a failed read does not throw (it must not be retried past a block that was not trimmed, nor ignored)')
+
+
+    structural(r1_structure, 'C14-R1', ['read_all(int fd)', 'read_all(FILE*)'])
+
+    def r2_structure():
+        # ---------------- R2
+        R = 'C14-R2'
+        fg = [f for f in u.func('phosg::fgets') if len(params_of(f)) == 1][0]
+        ctx.fn('fgets(FILE*)')
+        check_no_goto(fg)
+        body = body_of(fg)
+        lp = next(x for x in walk(body) if x.get('kind') in ('ForStmt', 'WhileStmt'))
+        lb = loop_body(lp)
+        blk = next((v for v in walk(lb) if v.get('kind') == 'VarDecl' and v.get('name') == 'block'), None)
+        need(blk is not None, 'fgets: block variable not found')
+        eb = [c for c in walk(blk) if c.get('kind') == 'CXXMemberCallExpr' and call_name(c) == 'emplace_back']
+        B = int_value(call_args(eb[0])[0]) if eb else None
+        need(B is not None, 'fgets: block capacity not found')
+        raw = calls_named(lb, ('fgets',))
+        raw = [c for c in raw if len(call_args(c)) == 3]
+        need(len(raw) == 1, 'fgets: ::fgets call not found')
+        a1 = nf(call_args(raw[0])[1])
+        ctx.check(a1 in ('block.size()', str(B)), R, 'fgets|capacity-passed', raw[0], '::fgets is given the block capacity %d' % B, '::fgets is given %s, the block holds %d bytes' % (a1, B))
+        resz = [c for c in walk(lb) if c.get('kind') == 'CXXMemberCallExpr' and call_name(c) == 'resize' and canon(member_call_object(c)) == 'block']
+        lenv = next((v for v in walk(lb) if v.get('kind') == 'VarDecl' and kids(v) and 'strlen' in canon(kids(v)[-1])), None)
+        brk = [b for b in walk(lb) if b.get('kind') == 'BreakStmt' and enclosing(b, ('IfStmt',)) is not None and 'feof' not in nf(if_parts(enclosing(b, ('IfStmt',)))[0])]
+        ok = lenv is not None and len(brk) == 1
+        why = 'line-end test not found'
+        if ok:
+            ifs = enclosing(brk[0], ('IfStmt',))
+            cond = if_parts(ifs)[0]
+            eval_at = ifs
+            rdc = ref_decl(cond)
+            if rdc and rdc.get('kind') == 'VarDecl':
+                # the test is held in a named bool: judge it where it is computed
+                vdc = next((v for v in walk(lb) if v.get('kind') == 'VarDecl' and v.get('id') == rdc['id'] and kids(v)), None)
+                if vdc is not None:
+                    cond = kids(vdc)[-1]
+                    eval_at = vdc
+            after_resize = bool(resz) and resz[0].get('_off', 0) < eval_at.get('_off', 0) and canon(call_args(resz[0])[0]) == lenv['name']
+
+            def size_now():
+                return lenv['name'] if after_resize else str(B)
+
+            def sym(n):
+                """value of an index/length expression as ('const', k) or ('len', k) meaning len + k"""
+                s = nf(n)
+                s = s.replace('block.size()', size_now())
+                m = re.match(r'^\((\w+) - (\d+)\)$', s)
+                if s.isdigit():
+                    return ('const', int(s))
+                if s == lenv['name']:
+                    return ('len', 0)
+                if m and m.group(1).isdigit():
+                    return ('const', int(m.group(1)) - int(m.group(2)))
+                if m and m.group(1) == lenv['name']:
+                    return ('len', -int(m.group(2)))
+                return None
+            c0 = strip(cond)
+            dis = []
+            st = [c0]
+            while st:
+                x = strip(st.pop())
+                if x.get('kind') == 'BinaryOperator' and x.get('opcode') == '||':
+                    st.extend(x['inner'])
+                else:
+                    dis.append(x)
+            short_ok = False
+            nl_ok = False
+            detail = []
+            for d in dis:
+                r = relation(d, True)
+                if not r:
+                    continue
+                if nf(r[0]) == lenv['name'] and r[1] in ('<', '<=', '!='):
+                    k = sym(r[2])
+                    bound = None
+                    if k and k[0] == 'const':
+                        bound = k[1] if r[1] in ('<', '!=') else k[1] + 1
+                    short_ok = bound == B - 1
+                    detail.append('short-block test: %s %s %s (means fewer than %s characters; a full block holds %d)' % (lenv['name'], r[1], nf(r[2]), bound, B - 1))
+                elif r[1] == '==' and int_value(r[2]) == 10:
+                    ch = strip(r[0])
+                    idx = None
+                    if ch.get('kind') == 'CXXOperatorCallExpr' and call_name(ch) == 'operator[]':
+                        idx = sym(ch['inner'][2])
+                    elif ch.get('kind') == 'CXXMemberCallExpr' and call_name(ch) == 'back':
+                        idx = ('len', -1) if after_resize else ('const', B - 1)
+                    # under the negation of the short test the block is full: len == B-1
+                    if idx and idx[0] == 'len':
+                        idx = ('const', B - 1 + idx[1])
+                    nl_ok = idx == ('const', B - 2)
+                    detail.append('newline test reads index %s (the last character of a full block is at %d; index %d is the terminator)' % (idx[1] if idx else '?', B - 2, B - 1))
+            ok = short_ok and nl_ok
+            why = '; '.join(detail) or 'line-end test not recognised: %s' % nf(cond)
+        ctx.check(ok, R, 'fgets|line-end-test', brk[0] if brk else fg, 'line ends iff fewer than B-1 characters arrived or the character at B-2 is a newline',
+                  'the end-of-line test is wrong for lines that fill a block: %s: the next line is glued on (or a long line is cut)' % why)
+        eofb = [x for x in walk(lb) if x.get('kind') == 'IfStmt' and 'feof' in nf(if_parts(x)[0])]
+        ctx.check(len(eofb) == 1 and any(t.get('kind') == 'CXXThrowExpr' for t in walk(eofb[0])) and any(b.get('kind') == 'BreakStmt' for b in walk(if_parts(eofb[0])[1])), R, 'fgets|eof-vs-error', eofb[0] if eofb else fg, 'null from ::fgets: end of file ends the line, anything else throws', 'the null-result branch no longer distinguishes end of file from an error')
+
+
+    structural(r2_structure, 'C14-R2', ['fgets(FILE*)'])
 
     # ---------------- R3
     R = 'C14-R3'
@@ -233,10 +360,22 @@ def run(ctx):
         if lam:
             rs = [r for r in walk(lam[0]) if r.get('kind') == 'ReturnStmt']
             pred = nf(kids(rs[0])[0]) if rs else None
+            # parameter names and the direction in which the comparison is written do not matter
+            opc = next((m_ for m_ in walk(lam[0]) if m_.get('kind') == 'CXXMethodDecl' and m_.get('name') == 'operator()'), None)
+            lps = params_of(opc) if opc is not None else []
+            rel_ = relation(kids(rs[0])[0], True) if rs else None
+            if rel_ and len(lps) == 2:
+                a_, o_, b_ = nf(rel_[0]), rel_[1], nf(rel_[2])
+                for i_, p_ in enumerate(lps):
+                    a_ = re.sub(r'\b%s\b' % re.escape(p_['name']), '@%d' % i_, a_)
+                    b_ = re.sub(r'\b%s\b' % re.escape(p_['name']), '@%d' % i_, b_)
+                if o_ in ('>', '>='):
+                    a_, o_, b_ = b_, FLIP[o_], a_
+                pred = '(%s %s %s)' % (a_, o_, b_)
         return cs, pred
     ca, pa = lookup(add)
     cr, pr = lookup(rem)
-    ctx.check(len(ca) == 1 and call_name(ca[0]) == 'lower_bound' and pa == '(x.fd < y.fd)', R, 'add|lookup', ca[0] if ca else add, 'lower_bound with x.fd < y.fd',
+    ctx.check(len(ca) == 1 and call_name(ca[0]) == 'lower_bound' and pa in ('(x.fd < y.fd)', '(@0.fd < @1.fd)'), R, 'add|lookup', ca[0] if ca else add, 'lower_bound with x.fd < y.fd',
               'Poll::add locates the slot with %s / %s: with upper_bound the equality test on the result can never be true and a descriptor that is already present is inserted again' % ([call_name(c) for c in ca], pa))
     ctx.check(len(cr) == 1 and call_name(cr[0]) == 'lower_bound' and pr == pa, R, 'remove|lookup', cr[0] if cr else rem, 'same search as add', 'Poll::remove searches with %s / %s, add with %s' % ([call_name(c) for c in cr], pr, pa))
     itv = enclosing(ca[0], ('VarDecl',)) if ca else None
